@@ -257,13 +257,14 @@ impl CaseInput for DbgCase {
         if p1 != p2 || q1 != q2 {
             oracle.push(("C10:output-depends-on-secret".into(), format!("shape {} type {tyname}: {:?} vs {:?}", self.shape, truncate(&p1), truncate(&p2))));
         }
-        for (s, outs) in [(&self.s1, [&p1, &q1]), (&self.s2, [&p2, &q2])] {
-            // any recognisable part: every 6-character window of a reasonably long secret
+        for (s, outs, others) in [(&self.s1, [&p1, &q1], [&p2, &q2]), (&self.s2, [&p2, &q2], [&p1, &q1])] {
+            // any recognisable part: every 6-character window of a reasonably long secret — confirmed against the rendering with
+            // the OTHER secret (a window that is there as well did not come from this secret: a port, a lifetime, a field name)
             let chars: Vec<char> = s.chars().collect();
             if chars.len() >= 12 && chars.iter().all(|c| c.is_ascii_alphanumeric()) {
                 for w in chars.windows(6).step_by(3) {
                     let w: String = w.iter().collect();
-                    if outs.iter().any(|o| o.contains(&w)) {
+                    if outs.iter().any(|o| o.contains(&w)) && !others.iter().any(|o| o.contains(&w)) {
                         oracle.push(("C10:secret-revealed".into(), format!("shape {} type {tyname}: window {w:?} of the secret appears in the debug output", self.shape)));
                         break;
                     }
